@@ -384,7 +384,67 @@ def posOfRes : Res Val → Nat
   | .ioerr _ p => p
   | .panic _ p => p
 
+/-! ### `fn …`: the bit functions called directly (tie by correspondence + specification) -/
+
+/-- the k low base-256 digits of u reversed (the specification of ReverseBytes64 on u < 2^(8k)) -/
+def revDigitsD : Nat → Nat → Nat
+  | 0, _ => 0
+  | k+1, u => (u % 256) * 256 ^ k + revDigitsD k (u / 256)
+
+def stepFn (ws : List String) (obs : String) : String :=
+  match ws, words obs with
+  | ["rev64", sn, sv], [o] =>
+    match sn.toNat?, natOfHex sv with
+    | some nb, some v =>
+      let model := match reverseBytes64 nb (BitVec.ofNat 64 v) with
+        | some r => s!"u:{r.toNat}"
+        | none => "panic"
+      let k := (nb + 7) / 8
+      if nb ≤ 64 ∧ v < 2 ^ (8 * k) ∧ o != s!"u:{revDigitsD k v}" then
+        s!"PROPFAIL ReverseBytes64({nb}, {v}) = {o}, the {k} bytes reversed are u:{revDigitsD k v}" ++
+          (if o == model then "" else s!" ;DIVERGE model={model}")
+      else if o == model then "OK" else s!"DIVERGE model={model}"
+    | _, _ => "BADOP fn"
+  | ["twos", sn, sv], [o] =>
+    match sn.toNat?, natOfHex sv with
+    | some nb, some v =>
+      let model := s!"s:{twosComplement nb (BitVec.ofNat 64 v)}"
+      if 1 ≤ nb ∧ nb ≤ 64 ∧ v < 2 ^ nb ∧ o != s!"s:{signedOf nb v}" then
+        s!"PROPFAIL two's complement of {v} at {nb} bits = {o}, it is s:{signedOf nb v}" ++
+          (if o == model then "" else s!" ;DIVERGE model={model}")
+      else if o == model then "OK" else s!"DIVERGE model={model}"
+    | _, _ => "BADOP fn"
+  | ["f16", sh], [o] =>
+    match natOfHex sh with
+    | some h =>
+      let model := s!"u:{expandF16ToF32 h}"
+      match (o.splitOn ":") with
+      | ["u", sb] =>
+        match sb.toNat? with
+        | some b =>
+          if h < 65536 ∧ !(val32 b).same (val16 h) then
+            s!"PROPFAIL float16 {h} expanded to binary32 {b}: not the same number" ++
+              (if o == model then "" else s!" ;DIVERGE model={model}")
+          else if o == model then "OK" else s!"DIVERGE model={model}"
+        | none => "BADOP fn obs"
+      | _ => "BADOP fn obs"
+    | none => "BADOP fn"
+  | ["f80", sse, sm], [o] =>
+    match natOfHex sse, natOfHex sm with
+    | some se, some m =>
+      match parseVal o with
+      | some (.f b) =>
+        let spec := f80to64Spec se m
+        let model := f80to64 se m
+        let div := if valEq (.f model) (.f b) then "" else s!" ;DIVERGE model=f:{hexNat 16 model}"
+        if !valEq (.f spec) (.f b) then s!"PROPFAIL float80 {sse} {sm} read as f:{hexNat 16 b}, correctly rounded is f:{hexNat 16 spec}{div}"
+        else if div.isEmpty then "OK" else s!"DIVERGE model=f:{hexNat 16 model}"
+      | _ => "BADOP fn obs"
+    | _, _ => "BADOP fn"
+  | _, _ => "BADOP fn"
+
 def stepC02 (op0 obs0 : String) : String :=
+  if (words op0).head? == some "fn" then stepFn ((words op0).drop 1) obs0 else
   -- optional shape word after `rd`
   let (op, shape) : String × Option String := match words op0 with
     | "rd" :: w :: rest => if w.toNat?.isSome then (op0, none) else (" ".intercalate ("rd" :: rest), some w)
